@@ -19,7 +19,8 @@ TRUSTED = ["coq/Html/HtmlModel.v is a hand transcription of Tree/HtmlToAst/Eleme
            "gen/c16_html.py translates the render() f-string templates, Attribute.__str__, void_elements and the handler->class table",
            "gen/pysrc.py + gen/c16_src.py (statement-by-statement source translation) and the domain mapping coq/Html/SrcPrims.v: "
            "objects = store ids, self.stack = t_stack, for-loops = sequential iteration in the exception monad, MutableSequence.append "
-           "= insert(len(self), .), TerminalElement overrides deepcopy, the two text-matched statements of Element.find"]
+           "= insert(len(self), .), TerminalElement overrides deepcopy, the two text-matched statements of Element.find, Tree.clear restarts "
+           "the ids (t_forget), render translated for tag_overrides=None, str(self.attrs) = render_attrs"]
 ORACLES = {
     "O_htmlparser_events": "HTMLParser.feed(print h) emits exactly events_of h for every wf h: checked on all wf documents with "
                            "<= 3 (quick) / <= 4 (thorough) nodes over a vocabulary covering every construct, and on random large ones",
@@ -841,7 +842,7 @@ def replay(ctx, data):
     return 0 if ok else 1
 
 
-LEVEL_TEXT = ("Proof (Coq, 16 theorems): for every event list the Tree stack machine of the model never raises and keeps the root at "
+LEVEL_TEXT = ("Proof (Coq, 19 theorems): for every event list the Tree stack machine of the model never raises and keeps the root at "
               "the bottom of a non-empty stack (C16_build_total); the element store is a tree and walk(root) enumerates every "
               "element exactly once (C16_tree_consistent); for every well-formed document render(build(parse(print h))) = print h "
               "under the html.parser oracle (C16_roundtrip), at any position of any sequence of calls, each of which starts from a "
@@ -854,9 +855,13 @@ LEVEL_TEXT = ("Proof (Coq, 16 theorems): for every event list the Tree stack mac
               "parse_html.py on every run. Source-translation tie: Element.insert/append/walk/deepcopy/reset_children/strip/find, "
               "Tree.last/nest_*/enclose and the HtmlToAst handlers are regenerated statement by statement into coq/Gen/HtmlSrc.v "
               "and proved equal to the hand-written model, so C16_build_total_src, C16_tree_consistent_src, C16_find_is_filter_src "
-              "and C16_copy_strip_pure_src hold of the regenerated code; render's recursion, Tree.__init__/clear and "
-              "Attribute.classes stay tied by differential correspondence on the real html.parser event streams.")
-LEVEL_NOTE = ("Trusted: Coq kernel; the statement translator gen/pysrc.py + domain mapping coq/Html/SrcPrims.v; hand transcription of render / Tree.__init__ / Attribute into coq/Html/HtmlModel.v (correspondence, not proof); "
+              "and C16_copy_strip_pure_src hold of the regenerated code; Tree.__init__/clear, Attribute.__getitem__/classes "
+              "(C16_tokenize_src) and the ten render methods (C16_render_src: the regenerated render returns what the modelled one "
+              "returns) are regenerated too, so the round trip holds of regenerated code only (C16_roundtrip_src). Limits: render is "
+              "translated for tag_overrides=None; render_src refines the model (equal result whenever the model returns; an XTag / "
+              "VoidTag / terminal with children would make the model recurse where the code does not); Attribute.__str__'s join and "
+              "dict construction stay hand-written (correspondence).")
+LEVEL_NOTE = ("Trusted: Coq kernel; the statement translator gen/pysrc.py + domain mapping coq/Html/SrcPrims.v; Tree.clear is translated with ids restarting at 0 (the generator checks that clear() overwrites outmost and empties the stack, so nothing allocated before stays reachable; garbage is not modelled); hand transcription of Attribute.__str__ / dict(...) into coq/Html/HtmlModel.v (correspondence, not proof); "
               "html.parser as oracle (O_htmlparser_events exercised exhaustively on small wf documents); 'well-formed' is read as: "
               "lower-case ASCII names, attribute values double-quoted with '&' and '\"' written &amp; / &quot; (or no value), no adjacent text nodes, "
               "script/style containing text only, comments/PI/declarations without '>', declarations starting with doctype, "
